@@ -9,6 +9,8 @@ package server
 //                                    previous reply's value operation)
 //   C15:refused-changed-value        a request answered with a refusal (anything but SUCCED, LOCKED_ERROR to an update, or
 //                                    LOCKED_ERROR to a cancel) changed the value
+//   C15:accepted-value-op-not-applied  an accepted UNLOCK / immediately granted LOCK with a simple value operation leaves a value
+//                                    other than the one a sequential register computes from the value before it
 //   C17:keycount                     KeyCount ≠ number of the sequence's keys whose record is reachable through GetLockManager
 //   C17:value-on-new-key             a key without a record gets a value from an operation that carries no frame (recycled key record)
 //   C17:keycount-after-drain / C17:value-after-drain / C17:refcount-after-drain
@@ -17,7 +19,10 @@ package server
 //   C10:non-leader-changed-state     a client request answered STATE_ERROR changed holders / waiters / value
 
 import (
+	"encoding/hex"
 	"fmt"
+
+	"github.com/snower/slock/protocol"
 )
 
 type vE2Monitor struct {
@@ -150,6 +155,27 @@ func (m *vE2Monitor) after(o vE2Op, ob string) {
 	if !accepted && e2HexOrDash(pre.data) != e2HexOrDash(post.data) {
 		m.report(fmt.Sprintf("C15:refused-changed-value(result=%d)", res), fmt.Sprintf("request %s was refused with result %d but the value of key %d changed: %s -> %s", o.String(), res, o.key, e2HexOrDash(pre.data), e2HexOrDash(post.data)))
 	}
+	// ---- C15: an accepted UNLOCK / immediately granted LOCK applies its value operation exactly as a sequential interpreter
+	// does (simple top-level operations only; no other reply on this key in the same operation, so nothing else touched the value)
+	// (a LOCK with expiry 0 holds nothing for any time: granted and over at once, or a no-op on an existing hold — not judged)
+	if res == 0 && o.flag&4 == 0 && (o.kind == 'U' || o.expried > 0) && len(o.frame) != 0 && post.exists && post.locked > 0 && len(m.opRep) == 1 {
+		fr, _ := hex.DecodeString(o.frameHx)
+		if vop := e2SimpleValueOp(fr); vop != nil {
+			pv, ok := vvDecode(pre.data)
+			switch vop.kind { // an operation of one value type on a value of the other is outside what the statement defines
+			case "INCR", "APPEND", "SHIFT":
+				ok = ok && pv.kind != 2
+			case "PUSH", "POP":
+				ok = ok && pv.kind != 1
+			}
+			if ok {
+				want := vvApply(pv, vop)
+				if got, ok2 := vvDecode(post.data); !ok2 || !got.equal(want) {
+					m.report(fmt.Sprintf("C15:accepted-value-op-not-applied(%c,%s)", o.kind, vop.kind), fmt.Sprintf("request %s was accepted (result 0) with the value operation %s on key %d whose value was %s: a sequential register now holds %s, the key holds %s", o.String(), vop.kind, o.key, pv.String(), want.String(), e2HexOrDash(post.data)))
+				}
+			}
+		}
+	}
 	// ---- C10: a non-leader refusal changes nothing
 	if res == protocol_RESULT_STATE_ERROR && o.flag&4 == 0 {
 		if a, b := e2StateStr(pre), e2StateStr(post); a != b {
@@ -183,4 +209,56 @@ func (m *vE2Monitor) drained() {
 	if kc := x.keyCount(); kc != 0 {
 		m.report("C17:keycount-after-drain", fmt.Sprintf("KeyCount is %d above its value at the start of the sequence after the drain + 18 s", kc))
 	}
+}
+
+// e2SimpleValueOp reads a well-formed top-level value frame of the current stage without the first-or-last gate (SET / UNSET / INCR with
+// an 8-byte operand / APPEND / SHIFT / PUSH / POP; properties skipped) as an operation of the sequential register; nil for anything else.
+func e2SimpleValueOp(f []byte) *vvOp {
+	if len(f) < 6 || int(uint32(f[0])|uint32(f[1])<<8|uint32(f[2])<<16|uint32(f[3])<<24) != len(f)-4 {
+		return nil
+	}
+	if f[4]>>6 != protocol.LOCK_DATA_STAGE_CURRENT || f[5]&^(protocol.LOCK_DATA_FLAG_VALUE_TYPE_NUMBER|protocol.LOCK_DATA_FLAG_VALUE_TYPE_ARRAY|protocol.LOCK_DATA_FLAG_CONTAINS_PROPERTY) != 0 {
+		return nil
+	}
+	off, ok := vvCellOffset(f)
+	if !ok {
+		return nil
+	}
+	p := f[off:]
+	arr := f[5]&protocol.LOCK_DATA_FLAG_VALUE_TYPE_ARRAY != 0
+	if arr && f[4]&0x3f != protocol.LOCK_DATA_COMMAND_TYPE_SET {
+		return nil
+	}
+	switch f[4] & 0x3f {
+	case protocol.LOCK_DATA_COMMAND_TYPE_SET:
+		if arr {
+			v, ok := vvDecode(f)
+			if !ok {
+				return nil
+			}
+			return &vvOp{kind: "SET", isArr: true, arr: v.xs}
+		}
+		return &vvOp{kind: "SET", b: vvClone(p)}
+	case protocol.LOCK_DATA_COMMAND_TYPE_UNSET:
+		return &vvOp{kind: "UNSET"}
+	case protocol.LOCK_DATA_COMMAND_TYPE_INCR:
+		if len(p) != 8 {
+			return nil
+		}
+		return &vvOp{kind: "INCR", b: vvClone(p)}
+	case protocol.LOCK_DATA_COMMAND_TYPE_APPEND:
+		return &vvOp{kind: "APPEND", b: vvClone(p)}
+	case protocol.LOCK_DATA_COMMAND_TYPE_PUSH:
+		return &vvOp{kind: "PUSH", b: vvClone(p)}
+	case protocol.LOCK_DATA_COMMAND_TYPE_SHIFT, protocol.LOCK_DATA_COMMAND_TYPE_POP:
+		if len(p) != 4 {
+			return nil
+		}
+		k := "SHIFT"
+		if f[4]&0x3f == protocol.LOCK_DATA_COMMAND_TYPE_POP {
+			k = "POP"
+		}
+		return &vvOp{kind: k, n: uint32(p[0]) | uint32(p[1])<<8 | uint32(p[2])<<16 | uint32(p[3])<<24}
+	}
+	return nil
 }
